@@ -10,12 +10,13 @@ use crate::world::*;
 
 #[derive(Clone, Debug)]
 enum Step {
-	Acq(Acq),
+	/// acquisition; optionally clear_poison(leaf) from inside the critical section
+	Acq(Acq, Option<usize>),
 	Clear(usize),
 }
 
 fn check_flags(tc: &Tc<'_>, when: &str) {
-	let Some(pm) = tc.pois.as_ref() else { return };
+	let pm = tc.w.pois_snapshot();
 	for (i, leaf) in tc.arena.leaves.iter().enumerate() {
 		let id = tc.arena.leaf_ids[i];
 		let p = match leaf {
@@ -77,17 +78,15 @@ pub fn run(cfg: &RunCfg, soak: bool) -> Report {
 				if !soak && r.chance(1, 3) {
 					a.panic = true;
 				}
-				steps.push(Step::Acq(a));
+				let inside = if !soak && r.chance(1, 4) { Some(*r.pick(&pois_idx)) } else { None };
+				steps.push(Step::Acq(a, inside));
 			}
 		}
 		let keep_log = cfg.only.is_some();
 		let (res, out) = solo(&arena_spec, Policy::ReaderPref, keep_log, |tc| {
 			let w = tc.w.clone();
-			let mut pm = PoisModel::default();
-			for p in &pois_idx {
-				pm.tracked.insert(tc.arena.leaf_ids[*p]);
-			}
-			tc.pois = Some(pm);
+			let tracked: Vec<LockId> = pois_idx.iter().map(|p| tc.arena.leaf_ids[*p]).collect();
+			w.pois_enable(&tracked);
 			let mut panics = 0u32;
 			for s in &steps {
 				match s {
@@ -98,13 +97,12 @@ pub fn run(cfg: &RunCfg, soak: bool) -> Report {
 							Leaf::PR(l) => l.clear_poison(),
 							_ => {}
 						});
-						let pm = tc.pois.as_mut().unwrap();
-						pm.must.remove(&id);
-						pm.may.remove(&id);
+						w.pois_clear(id);
 						check_flags(tc, "after clear_poison");
 					}
-					Step::Acq(a) => {
+					Step::Acq(a, inside) => {
 						tc.try_max = 1;
+						tc.clear_inside = inside.iter().copied().collect();
 						let before = tc.stats.panics_injected;
 						let r = guarded(|| tc.run_acq(a));
 						match r {
@@ -133,7 +131,7 @@ pub fn run(cfg: &RunCfg, soak: bool) -> Report {
 					}
 				}
 			}
-			let pm = tc.pois.clone().unwrap();
+			let pm = w.pois_snapshot();
 			(panics, pm.checks, pm.poisoned_seen)
 		});
 		rep.evaluations += 1;
@@ -143,7 +141,8 @@ pub fn run(cfg: &RunCfg, soak: bool) -> Report {
 			steps
 				.iter()
 				.map(|s| match s {
-					Step::Acq(a) => acq_desc(a),
+					Step::Acq(a, None) => acq_desc(a),
+					Step::Acq(a, Some(l)) => format!("{}+clear_poison(L{l}) inside", acq_desc(a)),
 					Step::Clear(p) => format!("clear_poison(L{p})"),
 				})
 				.collect::<Vec<_>>()
@@ -187,7 +186,7 @@ pub fn run(cfg: &RunCfg, soak: bool) -> Report {
 	rep.rule = if soak {
 		"panic-free soak: random histories (10..40 acquisitions) over arenas with Poisonable leaves, every API flavour and collection kind; no wrapper may ever report poisoned (is_poisoned, Ok/Err of every position); distinct = distinct history".into()
 	} else {
-		"random histories (2..10 steps) over arenas with Poisonable<Mutex>/Poisonable<RwLock> leaves: holds via own guard / own scoped call / guard or scoped call of boxed, ref, retrying and nested collections containing them x exclusive/shared x panic or not, clear_poison, subsequent acquisitions through every route; PoisonModel with must (panic during an exclusive hold) and may (any panic during any hold) bits: must => poisoned, not may => not poisoned, checked on is_poisoned() after every step and on the Ok/Err of every Poisonable position of every acquisition; non-trivial = history with >= 1 panic during a hold".into()
+		"random histories (2..10 steps) over arenas with Poisonable<Mutex>/Poisonable<RwLock> leaves: holds via own guard / own scoped call / guard or scoped call of boxed, ref, retrying and nested collections containing them x exclusive/shared x panic or not, clear_poison between holds and from inside a live hold, subsequent acquisitions through every route; PoisonModel with must (panic during an exclusive hold) and may (any panic during any hold) bits: must => poisoned, not may => not poisoned, checked on is_poisoned() after every step and on the Ok/Err of every Poisonable position of every acquisition; non-trivial = history with >= 1 panic during a hold".into()
 	};
 	rep
 }
